@@ -52,6 +52,42 @@ def _ok_blocks(body):
     return out
 
 
+def _oid_lookup_classifier(prog, cp, fam):
+    """a function of the family that classifies an OID by looking it up in a constant table built from ED_25519_OID and X_25519_OID:
+    `TABLE.iter().find(|(known, _)| known == oid).map(..).ok_or(Err)` -- its result must-derives from that find, the closure compares its item with the
+    captured / passed OID, and the table's initializer refers to exactly the two constants (driver fact `refs`)."""
+    for b in fam:
+        if b.kind == 'Closure':
+            continue
+        finds = [c for c in b.calls() if c.term.cmethod in ('find', 'find_map', 'position') and c.term.ctrait == 'std::iter::Iterator' and len(c.term.args) == 2]
+        if len(finds) != 1:
+            continue
+        f = finds[0]
+        # the iterated collection is a named constant table made of the two OIDs
+        ro = origins(b, [f.term.args[0].place[0]]) if f.term.args[0].place is not None else None
+        tables = [k.get('def') for k in (ro.consts if ro else []) if k.get('def')]
+        good_table = False
+        for tname in tables:
+            centry = cp.consts.get(tname) or next((c for p_, c in cp.consts.items() if p_.endswith('::' + tname.rsplit('::', 1)[-1])), None)
+            refs = {r.rsplit('::', 1)[-1] for r in (centry or {}).get('refs', [])}
+            if refs and refs >= set(OIDS) and not (refs - set(OIDS) - {r for r in refs if not r.endswith('_OID')}):
+                good_table = True
+        if not good_table:
+            continue
+        # the predicate is an equality test
+        ce = expr_of(b, f.term.args[1])
+        if ce[0] != 'agg' or ce[3].j.get('agg') != 'closure':
+            continue
+        clo = prog.body(b.pkg, ce[3].j['closure'])
+        if clo is None or not any(c.term.cmethod in ('eq', 'ne') for c in clo.calls()):
+            continue
+        # the function's result is that lookup (Err when nothing matched)
+        if not must_derive(b, 0, lambda k, ob, bb: k == 'call' and bb == f.idx, extra_transparent=('map', 'ok_or', 'ok_or_else', 'copied', 'cloned')):
+            continue
+        return b
+    return None
+
+
 def r18_4(prog, rep):
     """"on any other input the parsers return an error": a key structure announcing another algorithm (X448, Ed448, ..) is refused. For each DER entry point,
     either no Ok result is reachable in it once the equal-edges of its comparisons with ED_25519_OID and X_25519_OID are cut (both constants being compared),
@@ -72,6 +108,21 @@ def r18_4(prog, rep):
             oks = [x for x in _ok_blocks(b) if x in r]
             verdicts.append((b.nkey, not oks))
         ok = any(v for _, v in verdicts)
+        if not ok:
+            lk = _oid_lookup_classifier(prog, cp, fam)
+            if lk is not None:
+                # every Ok result of the entry point lies behind the success of that classification (its error leaves through `?`)
+                calls = [b for b in E.calls() if (lambda r: r[1] and len(r[0]) == 1 and r[0][0].key == lk.key)(resolve_call(prog, E, b.term))]
+                cut = []
+                for cb in calls:
+                    env_cut = [b2 for b2 in E.calls() if b2.term.cmethod == 'branch' and b2.term.args and b2.term.args[0].place is not None and b2.term.args[0].place[0] == cb.term.dest[0]]
+                    for br in env_cut:
+                        si = switch_info(prog, E, br.term.target)
+                        if si and si['kind'] == 'enum' and enum_arm_target(si, 'Continue') is not None:
+                            cut.append((br.term.target, enum_arm_target(si, 'Continue')))
+                if calls and cut and not [x for x in _ok_blocks(E) if x in reachable_vs(E, 0, removed_edges=cut)]:
+                    ok = True
+                    verdicts.append((lk.nkey + ' (lookup in a table of the two OIDs)', True))
         rep.ob('R18.4', ok, 'R18.4|%s|unknown-algorithm-refused' % E.nkey,
                'an Ok result requires the OID to equal ED_25519_OID or X_25519_OID (%s)' % ', '.join(k for k, v in verdicts if v) if ok else
                'a key whose algorithm identifier is neither Ed25519 nor X25519 is not refused: no function on this parse path makes its Ok results depend on both OID comparisons '
